@@ -21,6 +21,9 @@ CLAIMED = {
  "C12": ("Coq theorem C12_roundtrip: for every pattern, flag, context values in Z, output modes, blank-free file path and every iteration order of the option map, the server's decoding (Write -> handleCommand -> option parsing -> dispatch -> regex.Deserialize) of the bytes the client sends yields exactly the requested read command; base64/strconv enter as hypotheses. Model tied to the code by running the real client constructors + SendMessage and the real ServerHandler.Write on hostile patterns and option values, including dmap's option-less first command.",
          "encoding/base64, strconv, regexp.Compile, mapr.NewQuery are oracles (hypotheses in the theorem, per-case tables in the correspondence check)",
          "Coq proof (split/join algebra over bytes, induction over option lists) + differential correspondence check"),
+ "C16": ("Coq model of brush.Colorfy (record kinds, SplitN, the painters' trim-and-reappend of the newline, codes as abstract complete SGR sequences) and of the client handlers' Write; theorems: C16_text (text parts of the rendering concatenate to the message - for every message), no-panic for the repaired painters and the mapreduce handler, refutation witness for the pinned painters; the strip statement is proved on the finite domain of all 66 430 messages of <= 5 symbols over the special-byte alphabet (C16_strip_partial), the unbounded version is stated and exercised. Tied to the code through brush.Colorfy and the three handlers on generated messages/streams with colours on and off.",
+         "partial: unbounded strip theorem not proved; palette abstracted; terminal outside the model",
+         "Coq proof (structural lemmas; finite sweep lifted by forallb_forall) + differential correspondence check"),
  "C18": ("Coq theorems C18_set/C18_shuffle_perm/C18_dedup/C18_comma/C18_file over an executable model of source->filter->dedup->shuffle for all entry lists, filters and legal index sequences; model tied to the code by a differential correspondence check (Go harness vs vm_compute) on generated lists/files/plug-in sources.",
          "regexp, math/rand and bufio.Scanner are oracles; outputs compared as sorted lists",
          "Coq proof (induction, Permutation/NoDup) + differential correspondence check"),
